@@ -29,8 +29,8 @@ type Op struct {
 	Size   int      `json:"size,omitempty"`
 	MT     int      `json:"mt,omitempty"`
 	ID     uint64   `json:"id,omitempty"`
-	Seq    int      `json:"seq,omitempty"` // per-sender sequence number of record messages
-	Ack    bool     `json:"ack,omitempty"` // observed: the relay's reader answered the ping after this send
+	Seq    int      `json:"seq,omitempty"`    // per-sender sequence number of record messages
+	Ack    bool     `json:"ack,omitempty"`    // observed: the relay's reader answered the ping after this send
 	NoPing bool     `json:"noping,omitempty"` // sender is stalled: no ping; confirmed by a reader that keeps up receiving it
 }
 
